@@ -46,7 +46,8 @@ def bad_value(rng, p):
     if conv == "float":
         return rng.choice(["x", "1,5", "==SUPPRESS=="])
     if conv == "dotted":
-        return rng.choice(["harness.wmod.nope", "harness.wmod.w.nope", "nope7.nope", "harness..w", "==SUPPRESS=="])
+        return rng.choice(["harness.wmod.nope", "harness.wmod.w.nope", "nope7.nope", "harness..w", "==SUPPRESS==",
+                           "harness.exitmod.x"])
     if conv == "literal":
         return rng.choice(["[1,", "foo", "1+", "{1:}", "(1,,)", "==SUPPRESS=="])
     return rng.choice(GROUPS)
